@@ -342,6 +342,8 @@ func runC08(c *Ctx) {
 		}
 	}
 
+	checkLisk32(c)
+
 	// ---- I1 IDs
 	{
 		n := 0
